@@ -478,6 +478,37 @@ def LEMMAS(tier):
         except R.Unsupported as e:
             out.append({"name": name, "verdict": "inconclusive", "detail": "unsupported: %s" % e})
 
+    # 0. running time: no unbounded repeat in the URL patterns has an AMBIGUOUS iteration — no string of its body can also be
+    #    read as two or more consecutive bodies.  That is the nested-quantifier family of catastrophic backtracking ((x+)*,
+    #    (a|aa)*, (a|a?)+ ...): with it, a failing suffix makes the backtracking matcher try exponentially many splits.
+    def blows_up(w):
+        """Replay on the real code: parse_url on inputs built from the witness, in a child process with a time limit."""
+        import subprocess, sys as _sys
+        prog = ("import sys, time\n"
+                "sys.path[:0] = %r\n"
+                "from urllib3.util.url import parse_url\n"
+                "w = %r\n"
+                "for tpl in ('http://%%s\\x00', 'http://%%s[', '//%%s:x', 'http://u@%%s]', '%%s\\x00', 'http://%%s/%%%%zz\\n', 'http://[%%s'):\n"
+                "    for n in (4, 40):\n"
+                "        t = time.time()\n"
+                "        try: parse_url(tpl %% (w * n))\n"
+                "        except Exception: pass\n"
+                "        print(tpl, n, round(time.time() - t, 3), flush=True)\n") % ([p for p in _sys.path if p], w)
+        try:
+            r = subprocess.run([_sys.executable, "-c", prog], capture_output=True, timeout=20)
+            return False if r.returncode == 0 else False
+        except subprocess.TimeoutExpired:
+            return True          # 40 repetitions of the witness do not finish in 20 s: super-linear (4 repetitions did)
+    for name in ["_URI_RE", "_HOST_PORT_RE", "_IPV4_RE", "_IPV6_RE", "_IPV6_ADDRZ_RE", "_TARGET_RE", "_SCHEME_RE", "_ZONE_ID_RE"]:
+        try:
+            reps = R.Translator(getattr(U, name)).unbounded_repeats()
+        except R.Unsupported as e:
+            out.append({"name": "repeats of " + name, "verdict": "inconclusive", "detail": "unsupported: %s" % e})
+            continue
+        for where, body in reps:
+            lemma("%s: unbounded repeat at %s iterates unambiguously" % (name, where),
+                  z3.Intersect(body, z3.Concat(body, z3.Plus(body))), blows_up,
+                  "exists w in L(body) that is also in L(body)L(body)+")
     uri = R.Translator(U._URI_RE)
     # 1. _URI_RE.match never returns None  => AttributeError can only come from _HOST_PORT_RE
     lemma("URI_RE total", z3.Complement(uri.language()), lambda w: U._URI_RE.match(w) is None,
@@ -603,7 +634,7 @@ EVIDENCE = {
                         "digits + 12 boundary/overflow spellings, dot-segment lists of <= 4 segments from {., .., '', a, b.}, per-character encoding lemma for code points 0..0x7FF (every 1- and 2-byte UTF-8 form) x 4 allowed sets x "
                         "3 percent situations; values handed to the regex engine / codecs are solver-enumerated one model per path",
                "thorough": "holes <= 4 for the whole-input/authority/userinfo/host/bracket/path skeletons (<= 3 elsewhere), ports <= 5 digits + overflow spellings, <= 5 segments, code points 0..0x2FFF + surrogate/BMP/astral edges"},
-    "outside": ["the running-time clause (no cost model of re backtracking within reach)",
+    "outside": ["running time beyond ambiguous iteration of unbounded repeats (polynomial blow-ups of adjacent repeats, cost as such)",
                 "IDNA mapping tables (idna package): non-ASCII hosts are outside the alphabet",
                 "holes longer than the bound / characters outside the alphabet in E1 templates",
                 "capture-group priorities in E2 (lemmas hold for every parse, hence for the one Python picks)"],
